@@ -1,7 +1,9 @@
 //! stream `value` — C34: preservation of value, per rule (`check_preservation_of_value` of each post-Byron era and
 //! Byron `check_fees`, through `verif_hooks`) on synthesized transaction bodies and UTxO sets.
 //!
-//!   pv <era> I <n> <value>^n O <m> <value>^m F <fee> M <mint|->
+//!   pv <era> I <n> <value>^n O <m> <value>^m F <fee> M <mint|->          (the rule alone, through verif_hooks)
+//!   pvw <era> I <n> <value>^n O <m> <value>^m F <fee> M <mint|->         (the same scenario as a correctly signed transaction
+//!                                                                          built by fixtures::synth, through validate_txs)
 //!   by I <n> <amount>^n O <m> <amount>^m S <size> A <summand> B <multiplier>          (Byron check_fees, no redeem inputs)
 //!
 //! `<era>` = shelley|allegra|mary|alonzo|babbage|conway. `<value>` = `c<coin>` (the `Coin` variant) or
@@ -11,7 +13,7 @@
 //! The transaction has no certificates, withdrawals, treasury or donation fields. The oracle computes the exact
 //! balance per asset with 128-bit integers.
 //! replies: ok | err negative-value | err not-preserved | err wrong-era | err fees-below-min | err other | panic
-use crate::fixtures::{self, Fixture, InputRef, UtxoEntry};
+use crate::fixtures::{self, synth, Fixture, InputRef, UtxoEntry};
 use crate::fw::*;
 use pallas_codec::minicbor::{self, data::Tag, Encoder};
 use pallas_primitives::alonzo::TransactionInput;
@@ -259,8 +261,10 @@ pub fn generate(g: &mut Gen) {
             for v in outs.iter_mut().chain(ins.iter_mut()) { normalize(v, conway); }
             if let Some(m) = mint.as_mut() { m.sort(); for (_, a) in m.iter_mut() { a.sort(); a.dedup_by(|x, y| x.0 == y.0); a.retain(|x| x.1 != 0); } m.dedup_by(|x, y| x.0 == y.0); if conway { m.retain(|(_, a)| !a.is_empty()); } }
             if conway { if let Some(m) = &mint { if m.is_empty() { mint = None; } } }
-            ops.push(format!("pv {era} I {} {} O {} {} F {fee} M {}", ins.len(), ins.iter().map(show_val).collect::<Vec<_>>().join(" "), outs.len(),
-                outs.iter().map(show_val).collect::<Vec<_>>().join(" "), match &mint { None => "-".to_string(), Some(m) if m.is_empty() => ";".to_string(), Some(m) => show_groups(m) }));
+            let text = format!("{era} I {} {} O {} {} F {fee} M {}", ins.len(), ins.iter().map(show_val).collect::<Vec<_>>().join(" "), outs.len(),
+                outs.iter().map(show_val).collect::<Vec<_>>().join(" "), match &mint { None => "-".to_string(), Some(m) if m.is_empty() => ";".to_string(), Some(m) => show_groups(m) });
+            ops.push(format!("pv {text}"));
+            if g.rng.chance(1, 2) { ops.push(format!("pvw {text}")); }
         }
         if g.rng.chance(1, 2) {
             let n = g.rng.range(1, 3);
@@ -284,6 +288,24 @@ fn take_vals(toks: &[String], tag: &str) -> (Vec<Val>, usize) {
     ((0..n).map(|i| parse_val(&toks[2 + i])).collect(), 2 + n)
 }
 
+fn to_svalue(v: &Val) -> synth::SValue { synth::SValue { multi: v.multi, coin: v.coin, groups: v.groups.clone() } }
+
+/// the same scenario as a whole, correctly signed transaction through `validate_txs`
+fn run_pvw(era: &str, ins: &[Val], outs: &[Val], fee: u64, mint: &Option<Vec<(u8, Vec<(Vec<u8>, i128)>)>>) -> Option<Result<(), VE>> {
+    let e = match era { "shelley" => Era::Shelley, "allegra" => Era::Allegra, "mary" => Era::Mary, "alonzo" => Era::Alonzo, "babbage" => Era::Babbage, _ => Era::Conway };
+    let t = synth::SynthTx {
+        era: e,
+        inputs: ins.iter().enumerate().map(|(i, v)| (100 + i as u8, to_svalue(v))).collect(),
+        outputs: outs.iter().map(to_svalue).collect(),
+        fee,
+        mint: mint.clone(),
+        required_signers: None,
+        witnesses: None,
+    };
+    let f = synth::build(&t);
+    guard_mut(|| f.validate())
+}
+
 fn run_pv(era: &str, ins: &[Val], outs: &[Val], fee: u64, mint: &Option<Vec<(u8, Vec<(Vec<u8>, i128)>)>>) -> Option<Result<(), VE>> {
     let (body, utxo) = build(era, ins, outs, fee, mint, false);
     let utxos = fixtures::utxos_of(&utxo);
@@ -305,14 +327,15 @@ pub fn run_case(case: &Case, out: &mut Out) {
     let (mut acc, mut rej) = (false, false);
     for op in &case.ops {
         match op[0].as_str() {
-            "pv" => {
+            "pv" | "pvw" => {
+                let whole = op[0] == "pvw";
                 let era = op[1].as_str();
                 let (ins, a) = take_vals(&op[2..], "I");
                 let (outs, b) = take_vals(&op[2 + a..], "O");
                 let rest = &op[2 + a + b..];
                 let fee: u64 = rest[1].parse().unwrap();
                 let mint = if rest[3] == "-" { None } else { Some(parse_groups(&rest[3])) };
-                let res = run_pv(era, &ins, &outs, fee, &mint);
+                let res = if whole { run_pvw(era, &ins, &outs, fee, &mint) } else { run_pv(era, &ins, &outs, fee, &mint) };
                 // exact balance, per asset
                 let mut bal: Assets = BTreeMap::new();
                 for v in &ins { add_assets(&mut bal, v, 1); }
@@ -327,13 +350,13 @@ pub fn run_case(case: &Case, out: &mut Out) {
                         if !off.is_empty() {
                             let kind = if off.iter().any(|s| s.starts_with("-.-")) { "ada" } else { "asset" };
                             let how = if mint.as_ref().map(|m| m.iter().flat_map(|g| g.1.iter()).any(|(_, a)| *a < 0)).unwrap_or(false) { "with-burn" } else { "no-burn" };
-                            out.viol(format!("value-not-conserved era={era} {kind} {how}"), format!("accepted although spent + mint - produced - fee = [{}] (op {})", off.join(" "), op.join(" ")));
+                            out.viol(format!("value-not-conserved era={era} {kind} {how}{}", if whole { " whole" } else { "" }), format!("accepted although spent + mint - produced - fee = [{}] (op {})", off.join(" "), op.join(" ")));
                         }
                         out.ok("");
                     }
                     Some(Err(e)) => { rej = true; out.err(class_of(&e)) }
                 }
-                out.cov(format!("pv:{era}:{}", if off.is_empty() { "balanced" } else { "unbalanced" }));
+                out.cov(format!("{}:{era}:{}", op[0], if off.is_empty() { "balanced" } else { "unbalanced" }));
             }
             "by" => {
                 let n: usize = op[2].parse().unwrap();
